@@ -32,7 +32,7 @@ def run(ctx):
     total += n
     # API level: setters on every kind of object, listings, reopen in both modes
     api_h = 0
-    for tag, args in [("meta-api", ["--seed", ctx.seed, "--count", 300 if quick else 5000, "--max-ops", 50, "--reopen-pct", 10, "--meta-heavy"])]:
+    for tag, args in [("meta-api", ["--seed", ctx.seed, "--count", 1000 if quick else 5000, "--max-ops", 50, "--reopen-pct", 10, "--meta-heavy"])]:
         stat, h2, sample = A.campaign(ctx, args, tag, "CfbVerif.Props.C01.C01_setMeta (model Dir no longer corresponds to lib.rs)")
         total += stat.get("ops", 0)
         api_h += stat.get("histories", 0)
